@@ -290,8 +290,8 @@ class C06(Property):
             'oracle on the same systems with random float states and rate constants over 8 decades. '
             'EXPLORATION (sampled, not proof): first-order networks (branches, cycles, A -> 2 B, A -> B + C; k over 2-8 decades; 9 output '
             'times log-spaced from 0.01/k_max to the slowest time scale (1..5)/k_min; atol/rtol 1e-6..1e-10; default integrator and integrator="scipy") from text through from_string/'
-            'get_odesys/integrate vs exp(M t) c0 (scipy expm, mpmath 40 digits when |M| t > 100); A + B -> P, A + B <-> P (also [A]0 = [B]0 exactly and [B]0/[A]0 -> 1), 2 A -> P vs '
-            'closed forms (own formula at 40 digits and chempy.kinetics.integrated); nonlinear networks: bounds and invariants only; '
+            'get_odesys/integrate vs exp(M t) c0 (scipy expm, mpmath 40 digits when |M| t > 100); A + B -> P, A + B <-> P (also [A]0 = [B]0 exactly and [B]0/[A]0 -> 1; 40% of the runs far past completion, kf*(major-minor)*t up to 1e4), 2 A -> P vs '
+            'closed forms (own formula at 40 digits and chempy.kinetics.integrated; the library forms are additionally swept against the 40-digit reference over kf*(major-minor)*t = 1e-3..1e4 with the numpy and math back-ends, non-finite values and exceptions flagged); nonlinear networks: bounds and invariants only; '
             'about 40% of the integrations go through the UNIT-AWARE pipeline (get_odesys(unit_registry=SI_base_registry), rate constants in '
             'molar/millimolar/mol m-3 per second/minute, one of 6 concentration units PER initial concentration, c0 as dict / list / quantity '
             'array, output times in s/min/ms/h, optional output units) and are converted back before the same comparisons; the Euler-step '
@@ -428,6 +428,9 @@ class C06(Property):
         swap = rng.random() < 0.5                               # which of A, B is the abundant one
         rate = kf * major + (kb if which in ('rev', 'equal_rev') else 0)
         tout = log_times(rng, 0.003 / rate, 30 / rate)
+        if rng.random() < 0.4:                                   # FAST / LATE regime: far past completion, kf*(major-minor)*t up to 1e4
+            slow = kf * (major - minor) if minor < major else rate
+            tout = log_times(rng, 0.003 / rate, 10 ** rng.uniform(1.5, 4) / slow)
         tol = rng.choice([1e-6, 1e-8, 1e-9, 1e-10])
         return {'kind': 'bimol', 'which': which, 'kf': kf, 'kb': kb, 'major': major, 'minor': minor, 'prod': prod, 'swap': swap,
                 'tout': tout, 'atol': tol * rng.choice([1, 1e-2]), 'rtol': tol, 'integrator': rng.choice([None, 'scipy']),
@@ -1003,10 +1006,45 @@ class C06(Property):
                 cf = ('dimerization_irrev(kf/2)', A, integrated.dimerization_irrev(float(t), case['kf'] / 2, case['major']))
             if cf is not None and not abs(got[cf[1]] - float(cf[2])) <= tolP:
                 return 'integrated %s(t=%g) = %r, chempy.kinetics.integrated.%s gives %r [%s]' % (cf[1], t, got[cf[1]], cf[0], float(cf[2]), text)
-        f = self._admissible(case, subs, names, yout, c0d)
+        f = self._closed_form_sweep(case, A, B) or self._admissible(case, subs, names, yout, c0d)
         if f:
             return f
         return self._euler_along(subs, rxns, names, yout, cb)
+
+    def _closed_form_sweep(self, case, A, B):
+        """chempy's closed forms against the 40-digit reference (no integration involved) from the early to the FAST / LATE regime:
+        kf*(major-minor)*t (resp. the relaxation rate times t) from 1e-3 to 1e4, numpy and math back-ends; a non-finite value or an
+        exception is a failure (the exact value there is finite: prod + minor after completion)"""
+        import math as _math
+        from chempy.kinetics import integrated
+        which = case['which']
+        if which == 'irrev' and not case['minor'] <= 0.9 * case['major']:
+            return None                                            # library form ill-conditioned ([B]0/[A]0 -> 1), own reference only
+        kf, kb, major, minor, prod = case['kf'], case['kb'], case['major'], case['minor'], case['prod']
+        slow = kf * (major - minor) if which == 'irrev' else kf * major + (kb if which in ('rev', 'equal_rev') else 0)
+        for i in range(11):
+            t = float('%.4g' % (10 ** (-3 + 0.7 * i) / slow))
+            want = self._bimol_exact(case, t, A, B)
+            refmax = max(want.values())
+            for be_name, be in (('numpy', None), ('math', _math)):
+                try:
+                    if which == 'irrev':
+                        name, key, val = 'binary_irrev', 'P', integrated.binary_irrev(t, kf, prod, major, minor, backend=be)
+                    elif which in ('rev', 'equal_rev'):
+                        name, key, val = 'binary_rev', 'P', integrated.binary_rev(t, kf, kb, prod, major, minor, backend=be)
+                    elif which == 'dimer':
+                        name, key, val = 'dimerization_irrev', 'A', integrated.dimerization_irrev(t, kf, major)
+                    else:
+                        name, key, val = 'dimerization_irrev(kf/2)', A, integrated.dimerization_irrev(t, kf / 2, major)
+                except Exception as e:
+                    return ('chempy.kinetics.integrated closed form (%s backend) raises %s: %s at t=%g, kf=%g, major=%g, minor=%g, prod=%g '
+                            '(exact value %r)' % (be_name, type(e).__name__, e, t, kf, major, minor, prod, want['P']))
+                val = float(val)
+                self.meas.setdefault('cf', []).append(abs(val - want[key]) / refmax if _math.isfinite(val) else _math.inf)
+                if not abs(val - want[key]) <= 1e-9 * refmax:
+                    return ('chempy.kinetics.integrated.%s (%s backend) = %r at t=%g, kf=%g, kb=%g, major=%g, minor=%g, prod=%g; '
+                            'exact %s = %r' % (name, be_name, val, t, kf, kb, major, minor, prod, key, want[key]))
+        return None
 
     def _bimol_system(self, case):
         which = case['which']
